@@ -102,12 +102,23 @@ fn build_both(modes: &[scnr::ScannerMode]) -> Result<(bool, bool, String), Strin
 /// Places a pattern string at a random position of a small configuration: as a pattern or as a
 /// lookahead, in the first or a later pattern, in the first or a later mode.
 fn place(rng: &mut Rng, text: &str, st: &mut Stats) -> Vec<scnr::ScannerMode> {
+    place_with(rng, text, st, false)
+}
+
+/// `huge_token_types`: only in worker processes (a build that tries to allocate by token type number
+/// ends in an abort, which must be attributed to its case).
+fn place_with(rng: &mut Rng, text: &str, st: &mut Stats, huge_token_types: bool) -> Vec<scnr::ScannerMode> {
     let n_modes = rng.range(1, 3);
     let target_mode = rng.below(n_modes);
     let as_lookahead = rng.chance(1, 3);
     // now and then all modes carry the same name (nothing forbids it; a mode must be examined
     // whatever it is called)
     let same_names = n_modes > 1 && rng.chance(1, 5);
+    // token type numbers are arbitrary usize values: now and then huge ones (building must stay total)
+    let tt_base = if huge_token_types && rng.chance(1, 6) { *rng.pick(&[usize::MAX - 8, usize::MAX / 2, (1usize << 32) + 1]) } else { 0 };
+    if tt_base > 0 {
+        st.count("placed_among_patterns_with_huge_token_types");
+    }
     if same_names && target_mode > 0 {
         st.count("placed_in_a_later_mode_that_repeats_an_earlier_name");
     }
@@ -122,7 +133,7 @@ fn place(rng: &mut Rng, text: &str, st: &mut Stats) -> Vec<scnr::ScannerMode> {
                 if as_lookahead {
                     st.count("placed_in_lookahead");
                     pats.push(
-                        scnr::Pattern::new(plain.to_string(), pi).with_lookahead(
+                        scnr::Pattern::new(plain.to_string(), tt_base + pi).with_lookahead(
                             scnr::Lookahead::new(rng.chance(1, 2), text.to_string()),
                         ),
                     );
@@ -131,12 +142,12 @@ fn place(rng: &mut Rng, text: &str, st: &mut Stats) -> Vec<scnr::ScannerMode> {
                     if rng.chance(1, 5) {
                         st.count("placed_in_lookahead_before_a_pattern_of_the_same_token_type");
                         pats.push(
-                            scnr::Pattern::new("c".to_string(), pi)
+                            scnr::Pattern::new("c".to_string(), tt_base + pi)
                                 .with_lookahead(scnr::Lookahead::new(rng.chance(1, 2), "d".to_string())),
                         );
                     }
                 } else {
-                    pats.push(scnr::Pattern::new(text.to_string(), pi));
+                    pats.push(scnr::Pattern::new(text.to_string(), tt_base + pi));
                 }
                 if pi > 0 {
                     st.count("placed_in_later_pattern");
@@ -145,7 +156,7 @@ fn place(rng: &mut Rng, text: &str, st: &mut Stats) -> Vec<scnr::ScannerMode> {
                     st.count("placed_in_non_first_mode");
                 }
             } else {
-                pats.push(scnr::Pattern::new(plain.to_string(), pi));
+                pats.push(scnr::Pattern::new(plain.to_string(), tt_base + pi));
             }
         }
         modes.push(scnr::ScannerMode::new(
@@ -166,7 +177,7 @@ pub fn c15_soup_case(rng: &mut Rng, _i: u64, st: &mut Stats) -> CaseOutcome {
     if parses {
         st.count("soup_parses");
     }
-    let modes = place(rng, &text, st);
+    let modes = place_with(rng, &text, st, true);
     st.count("soup_builds");
     let case = json!({"kind": "c15", "pattern_text": text, "modes": modes});
     match build_both(&modes) {
@@ -674,7 +685,9 @@ pub fn c15(tier: Tier) -> i32 {
     res.merge(run_cases(&ctx, 3, n_sup, |rng, i, st| c15_supported_case(rng, i, st)));
     // stream 5: look-around text right after an equal-looking valid configuration
     let n_twin = ctx.scale(3_000, 200_000);
-    res.merge(run_cases(&ctx, 5, n_twin, |rng, i, st| c15_display_twin_case(rng, i, st)));
+    // (in worker processes: its configurations carry arbitrary token type numbers, and a build that
+    // allocates by token type number ends in an abort that must be attributed to its case)
+    res.merge(run_cases_subprocess(&ctx, 5, n_twin, if tier == Tier::Quick { 400 } else { 10_000 }));
     // stream 4: the repository's own classification (match_test.rs): tu!/tr! rows must be
     // rejected, td! rows must build, through both build paths
     {
@@ -835,6 +848,19 @@ pub fn c16_case(rng: &mut Rng, _i: u64, st: &mut Stats) -> CaseOutcome {
         for _ in 0..rng.below(4) {
             t += rng.range(1, 70_000);
             trans.push((t, rng.below(5)));
+        }
+        // numbers a detour through a float, a 32-bit or a signed type would not survive (as pure
+        // data every usize is a legal token type and a legal mode index; sorted, distinct)
+        if rng.chance(1, 3) {
+            let big = [(1usize << 53) + 1, (1 << 53) + 3, u32::MAX as usize + 2, (1 << 62) + 1, isize::MAX as usize, isize::MAX as usize + 2, usize::MAX - 1, usize::MAX];
+            let mut k = rng.below(big.len());
+            for _ in 0..rng.range(1, 3) {
+                if k < big.len() {
+                    trans.push((big[k], *rng.pick(&[0usize, 3, (1 << 53) + 1, u32::MAX as usize + 1, usize::MAX])));
+                    k += 1 + rng.below(2);
+                }
+            }
+            st.count("transition_lists_with_numbers_beyond_2_pow_53");
         }
         if trans.is_empty() {
             st.count("empty_transition_list");
